@@ -266,6 +266,7 @@ fn main() {
     let (max_nodes, n_random_trees) = if args.thorough() { (5, 2500) } else { (4, 150) };
     run_trees(&mut cx, &mut rng, max_nodes, n_random_trees);
     deep_limits(&mut cx);
+    host_object_deep_copy(&mut cx);
 
     // 2. sorting
     let n_sorts = if args.thorough() { 6000 } else { 500 };
